@@ -135,7 +135,7 @@ def run(ctx):
             name, ctx.count_lines(cf), r.distinct, r.wall, n))
         ctx.coverage_extra["histories_" + name] = n
         noop = ctx.coverage_extra.get(name + ".mutate_noop", 0)
-        if name == "paths" and noop:
+        if name == "paths" and noop and not [v for v in ctx.verdicts if not str(v.get("class", "")).startswith(("drift", "Dev_"))]:
             raise vp.Broken("%d mutate steps of the exhaustive path sweep did not change the side they were applied to "
                             "(vacuous paths: fix harness/suite_c14.go)" % noop)
         if ctx.coverage_extra.get(name + ".hangs", 0):
